@@ -19,7 +19,7 @@ func init() { register("C14", func() core.Check { return &c14{} }) }
 
 func (*c14) Level() string { return "exploration" }
 func (*c14) Rule() string {
-	return "case = one hostile scenario (random bytes; byte/token mutations and truncations of valid journals; semantic hostiles: inverted accrual windows, dates 0001-01-01 / 9999-12-31 / 2020-02-30 / 2020-13-45, transactions dated after today, 400-digit numbers, zero and negative prices, 10^4 bookings; include graphs: self-include, 2- and 3-cycles, diamonds, missing file, directory, dangling symlink, unreadable file under a dropped uid, 200-deep chain, one bad leaf in a 40-file tree; several files on one format command line of which several are unparseable, with 1-3 workers; flag hostiles: absent optional flags, inverted windows, --last in {-5,0,10^9}, invalid regexes, -m garbage, unknown -v, --digits in {-3,40}, valid but unusual values (--remap / -m / --account / -s for every account type, repeated filters, other valuation commodities, --digits at the accepted bounds), and -m level / -m level:suffix / --last / --digits at the edges of the integer types (2^31-1, 2^31, 2^32, 2^63-1, 2^63, 2^64-1, 2^64, -2^63, signs, hex, exponent, padded and non-ASCII digits); empty journal; nonexistent file) x every journal-processing command (check, check --write, balance with and without --to, print, format, infer, transcode, portfolio weights, portfolio returns); oracle = process-outcome monitor: exit in {0,1}, no panic / fatal error / signal, watchdog 20 s (reproduced 3x = hang, else inconclusive), RSS <= 1 GB under a 4 GB address-space limit (a death at the limit with less than 512 MB resident is inconclusive: virtual address space is not memory), stderr non-empty on failure, stdout empty on failure of balance / print / transcode / infer / check --write, and failure whenever a bad file is planted in the include graph; non-trivial = run that reached a failure path (exit 1) or parsed >= 1 directive; distinct = scenario kind + command + outcome class + input hash"
+	return "case = one hostile scenario (random bytes; byte/token mutations and truncations of valid journals; semantic hostiles: inverted accrual windows, dates 0001-01-01 / 9999-12-31 / 2020-02-30 / 2020-13-45, transactions dated after today, 400-digit numbers, zero and negative prices, prices that underflow 8 decimals in the valuation commodity with a commodity priced only through them, 10^4 bookings; include graphs: self-include, 2- and 3-cycles, diamonds, missing file, directory, dangling symlink, unreadable file under a dropped uid, 200-deep chain, one bad leaf in a 40-file tree; several files on one format command line of which several are unparseable, with 1-3 workers; flag hostiles: absent optional flags, inverted windows, --last in {-5,0,10^9}, invalid regexes, -m garbage, unknown -v, --digits in {-3,40}, valid but unusual values (--remap / -m / --account / -s for every account type, repeated filters, other valuation commodities, --digits at the accepted bounds), and -m level / -m level:suffix / --last / --digits at the edges of the integer types (2^31-1, 2^31, 2^32, 2^63-1, 2^63, 2^64-1, 2^64, -2^63, signs, hex, exponent, padded and non-ASCII digits); empty journal; nonexistent file) x every journal-processing command (check, check --write, balance with and without --to, print, format, infer, transcode, portfolio weights, portfolio returns); oracle = process-outcome monitor: exit in {0,1}, no panic / fatal error / signal, watchdog 20 s (reproduced 3x = hang, else inconclusive), RSS <= 1 GB under a 4 GB address-space limit (a death at the limit with less than 512 MB resident is inconclusive: virtual address space is not memory), stderr non-empty on failure, stdout empty on failure of balance / print / transcode / infer / check --write, and failure whenever a bad file is planted in the include graph; non-trivial = run that reached a failure path (exit 1) or parsed >= 1 directive; distinct = scenario kind + command + outcome class + input hash"
 }
 
 func (k *c14) Setup(c *core.Ctx) (int, error) { return c.N(700, 20000), nil }
@@ -124,7 +124,12 @@ func (k *c14) scenario(c *core.Ctx, i int) c14Scenario {
 		date := []string{"0001-01-01", "9999-12-31", "2020-02-30", "2020-13-45", "0000-00-00", "2020-00-10"}[r.Intn(6)]
 		big400 := strings.Repeat("9", 400)
 		var body string
-		switch r.Intn(14) {
+		switch r.Intn(16) {
+		case 14, 15:
+			// prices that vanish at 8 decimals in the valuation commodity, and a commodity priced only through them
+			sc.kind = "semantic-price-underflow"
+			big := []string{"260000000", "100000001", "99999999999", "1500000000.5"}[r.Intn(4)]
+			body = "2020-01-02 price CHF " + big + " IDR\n2020-01-02 price BBCA 8550 IDR\n2020-01-02 price XAU 0.00000001 IDR\n\n2020-02-01 \"cheap\"\nAssets:Bank Expenses:Food 1000 IDR\n\n2020-02-02 \"via cheap\"\nAssets:Bank Assets:Depot 3 BBCA\n\n2020-03-01 price BBCA 8600 IDR\n"
 		case 12, 13:
 			// a transaction dated after today: beyond the default window
 			fd := []string{"2999-01-01", "9999-12-31", "2300-06-15", "2262-04-12"}[r.Intn(4)]
